@@ -339,7 +339,7 @@ def composition(rep, table, tier):
         return str(back).split(':')[0]
     for (a, va), (b, vb) in pairs:
         d = {a: va, b: vb}
-        for sep in ('', '\x1d'):
+        for sep in ('', '\x1d', '[FNC1]', '~1'):
             for par in (False, True):
                 n += 1
                 try:
@@ -357,12 +357,36 @@ def composition(rep, table, tier):
                 if not ok:
                     key = 'composition: %s (separator %r)' % (blame(d, back), sep)
                     bads.setdefault(key, (d, sep, par, s, back))
+    # element strings written by hand in either identifier order (encode() always sorts), with a separator after every
+    # variable-length element and optionally a leading separator
+    props = dict(table)
+    hand = 0
+    for (a, va), (b, vb) in pairs[:1500 if tier == 'quick' else len(pairs)]:
+        for sep in ('\x1d', '[FNC1]', '~1'):
+            try:
+                ea = gs1._encode_value(props[a]['format'], props[a]['type'], va)
+                eb = gs1._encode_value(props[b]['format'], props[b]['type'], vb)
+            except Exception:      # noqa: B902
+                continue
+            if not props[a].get('fnc1') and len(ea) != gs1._max_length(props[a]['format'], props[a]['type']):
+                continue
+            body = a + ea + (sep if props[a].get('fnc1') else '') + b + eb
+            for s_ in (body, sep + body):
+                hand += 1
+                d = {a: va, b: vb}
+                try:
+                    back = gs1.info(s_, sep)
+                except Exception as e:      # noqa: B902
+                    back = 'raises %s: %s' % (type(e).__name__, str(e)[:60])
+                if back != d:
+                    key = 'composition: hand-built element string with separator %r: %s' % (sep, blame(d, back))
+                    bads.setdefault(key, (d, sep, 'hand-built %r' % s_, s_, back))
     triples = 0
     for _ in range(300 if tier == 'quick' else 20000):
         k = rnd.randint(3, 5)
         items = rnd.sample(usable, k)
         d = dict(items)
-        sep = rnd.choice(['', '\x1d'])
+        sep = rnd.choice(['', '\x1d', '[FNC1]', '~1'])
         triples += 1
         try:
             s = gs1.encode(d, sep, rnd.random() < .5)
@@ -377,6 +401,12 @@ def composition(rep, table, tier):
 
     def still(k_):
         w = k_['witness']
+        if w.get('encoded') and str(w.get('parentheses', '')).startswith('hand-built'):
+            d_ = eval(w['input'], dict(datetime=datetime, Decimal=decimal.Decimal))
+            try:
+                return gs1.info(w['encoded'], w.get('separator') or '') != d_
+            except Exception:      # noqa: B902
+                return True
         d_ = eval(w['input'], dict(datetime=datetime, Decimal=decimal.Decimal))
         try:
             return gs1.info(gs1.encode(d_, w.get('separator') or '', bool(w.get('parentheses'))), w.get('separator') or '') != d_
@@ -385,7 +415,7 @@ def composition(rep, table, tier):
     for key, bad in sorted(bads.items()):
         rep.refuted('C16/' + key, 'stdnum.gs1_128', key, 'info(encode(%r, separator=%r, parentheses=%r)) = %r' % (bad[0], bad[1], bad[2], bad[4]),
                     dict(function='stdnum.gs1_128:info', input=repr(bad[0]), separator=bad[1], parentheses=bad[2], encoded=bad[3], real=repr(bad[4])), True, still)
-    rep.add('C16/composition/pairs', 'bounded', 'eval', time.time() - t0, detail='%d (pair, separator, parentheses) combinations and %d 3-5-tuples through the real encode/info/validate (bounded)' % (n, triples))
+    rep.add('C16/composition/pairs', 'bounded', 'eval', time.time() - t0, detail='%d (pair, separator, parentheses) combinations, %d 3-5-tuples through the real encode/info/validate and %d hand-built strings (bounded)' % (n, triples, hand))
 
 
 def check(prop, tier, args):
